@@ -167,12 +167,12 @@ def _sample_condition(exp_condition, frametimes, oversampling=16,
     # Find the high-resolution frametimes
     n = frametimes.size
     min_onset = float(min_onset)
+    # one more scan after the last one (the run need not start at time 0)
+    stop = frametimes.max() + (frametimes.max() - frametimes.min()) * 1. / (n - 1)
     n_hr = ((n - 1) * 1. / (frametimes.max() - frametimes.min()) *
-            (frametimes.max() * (1 + 1. / (n - 1)) - frametimes.min() -
-             min_onset) * oversampling) + 1
+            (stop - frametimes.min() - min_onset) * oversampling) + 1
 
-    hr_frametimes = np.linspace(frametimes.min() + min_onset,
-                                frametimes.max() * (1 + 1. / (n - 1)),
+    hr_frametimes = np.linspace(frametimes.min() + min_onset, stop,
                                 int(n_hr))
 
     # Get the condition information
@@ -349,7 +349,7 @@ def compute_regressor(exp_condition, hrf_model, frametimes, con_id='cond',
     large differences in most cases.
     """
     # this is the average tr in this session, not necessarily the true tr
-    tr = float(frametimes.max()) / (np.size(frametimes) - 1)
+    tr = float(frametimes.max() - frametimes.min()) / (np.size(frametimes) - 1)
 
     # 1. create the high temporal resolution regressor
     hr_regressor, hr_frametimes = _sample_condition(
